@@ -26,7 +26,7 @@ LEVEL_NOTE = ("Order is decided in the bounded, restated form 'observed slope ov
               "and end positions stay inside the clip box; the metric is the start cell's, as the implementation documents. RK2 = midpoint rule.")
 RULE = ("cases: onestep (field x scheme x metric, 200 particles, 6 steps), order (field x scheme ladder), helper (analytical.get_velocityN ladder), e2e (ROMS files, linear field, scheme, "
         "dx != dy). Non-trivial: the field has non-zero second derivatives or time dependence so that the three schemes differ; distinct by (kind, field, scheme, metric).")
-MANDATORY = ["e2e_reversed_forcing_over_several_files", "e2e_forcing_over_several_files", "e2e_metric_varying_along_eta_on_off_diagonal_subgrid", "field_exactly_at_rest_at_a_step", "helper_sample_function_returning_shared_arrays", "time_step_of_odd_seconds", "e2e_reversed_time_dependent", "inactive_particles_among_the_active", "grid_corner_off_diagonal", "e2e_subgrid_off_diagonal", "onestep_EF", "onestep_RK2", "onestep_RK4", "time_dependent_field", "anisotropic_metric", "piecewise_metric", "order_EF", "order_RK2", "order_RK4",
+MANDATORY = ["e2e_first_release_after_steps_with_an_empty_state", "e2e_reversed_forcing_over_several_files", "e2e_forcing_over_several_files", "e2e_metric_varying_along_eta_on_off_diagonal_subgrid", "field_exactly_at_rest_at_a_step", "helper_sample_function_returning_shared_arrays", "time_step_of_odd_seconds", "e2e_reversed_time_dependent", "inactive_particles_among_the_active", "grid_corner_off_diagonal", "e2e_subgrid_off_diagonal", "onestep_EF", "onestep_RK2", "onestep_RK4", "time_dependent_field", "anisotropic_metric", "piecewise_metric", "order_EF", "order_RK2", "order_RK4",
              "helper_order_1", "helper_order_2", "helper_order_4", "e2e_runs", "velocity_requests_checked"]
 ASSUMPTIONS = ["per-step displacement below about one cell (Courant <= 0.9)", "diffusion off"]
 TIMEOUT = {"quick": 900, "thorough": 3000}
@@ -326,6 +326,8 @@ def _e2e(case, wd, V, sit, cnt, keys):
     dy = dx * float(rng.choice([1.0, 0.6, 1.4, 2.0]))
     dt = int(rng.choice([300, 600]))
     nsteps = int(rng.integers(4, 10))
+    rel_step = 3 if case["idx"] % 4 == 1 else 0  # (idx % 4 == 1: forward, time dependent)
+    nsteps += rel_step
     c = float(rng.uniform(0.1, 0.5))
     sp = c * min(dx, dy) / dt
     timedep = case["idx"] % 2 == 1
@@ -358,7 +360,8 @@ def _e2e(case, wd, V, sit, cnt, keys):
     npart = 12
     X0 = rng.uniform(8.0, imax - 9.0, size=npart)
     Y0 = rng.uniform(8.0, jmax - 9.0, size=npart)
-    rows = [[start, float(X0[k]), float(Y0[k]), 5.0] for k in range(npart)]
+    # half of the forward time-dependent cases release nobody before step 3: the flow must have gone on changing while the state was empty
+    rows = [[str(tadd(start, rel_step * dt)), float(X0[k]), float(Y0[k]), 5.0] for k in range(npart)]
     sub = [None, [6, imax - 1, 2, jmax - 1], [2, imax - 2, 5, jmax - 2]][case["idx"] % 3]
     run = dict(start=start, stop=str(tadd(start, (-1 if rev else 1) * nsteps * dt)), dt=dt, reversed=rev, advection=scheme, subgrid=sub,
                release=dict(columns=["release_time", "X", "Y", "Z"], rows=rows, header=True), output=dict(period=dt))
@@ -388,7 +391,11 @@ def _e2e(case, wd, V, sit, cnt, keys):
             return -u_, -v_
 
     X, Y = X0.copy(), Y0.copy()
+    if rel_step:
+        _bump(sit, "e2e_first_release_after_steps_with_an_empty_state")
     for n, r in enumerate(recs):
+        if n < rel_step:
+            continue
         if len(r.pid) != npart:
             return  # somebody left the grid: void for this property
         err = float(np.max(np.hypot(r.vars["X"] - X, r.vars["Y"] - Y)))
